@@ -7,7 +7,9 @@ import (
 	"verif/grammar"
 )
 
-var triviaChoices = []string{"", "", " ", " ", "  ", "\t", "\n", "\r\n", " ;c\n", ";x y [ ] { } _ /\n", "\n\n ", " ; ♯ comment ♭ \n\t", ";a\n;b\n", " ;a\n  ;b\n;c\n", "\r", "\f", "\u00a0", "\u3000 "}
+var triviaChoices = []string{"", "", " ", " ", "  ", "\t", "\n", "\r\n", " ;c\n", ";x y [ ] { } _ /\n", "\n\n ", " ; ♯ comment ♭ \n\t", ";a\n;b\n", " ;a\n  ;b\n;c\n", "\r", "\f", "\u00a0", "\u3000 ",
+	// comment bodies with tabs, control characters, CR and other blanks followed by chord-like text
+	";was:\tD_7[2]\n", " ;\x01\x7f ctl E[1]\n", "; nb\u00a0sp F[1]{a=b}\n", ";cr\rC[9]\n", ";\u2028ls G[1]\n", ";\x00nul A[1]\n"}
 
 var metaLexemes = []string{";-)", ";k", "７", "k", "key", "Am", "txt", "a b", "x;y", "120", "v w  x", "5/4", "ff", "日本語", "tail ", "semi;colon", "new\nline", "[1]", "C_7/E", "-", "é😀", "#", "b"}
 
